@@ -9,7 +9,7 @@ Semantics covered (each checked against real pandas by native/pdmodel_selftest.p
   DataFrame.from_records(list of dicts) / DataFrame(list, index=) / df[col] / df[mask] / df.loc[mask] / len(df) /
   df.columns / df.pct_change(1) / df +-*/ scalar / df / df / df.cumprod() / df.expanding(min_periods=).max() / df.min()
   Series([..]) / s.iloc[k] / s.index[k] / len(s) / s[mask] / s cmp scalar / s +-*/** scalar|s / s.sum() / s.mean() /
-  s.min() / s.max() / s.std(ddof=) / s.prod() / s.cumprod() / s.expanding(min_periods=).max() / s.to_numpy() / s.shape
+  s.min() / s.max() / s.std(ddof=) / s.fillna(v) / s.count() / s.prod() / s.cumprod() / s.expanding(min_periods=).max() / s.to_numpy() / s.shape
   date_range(start=, periods=) with daily frequency: index[j] - index[i] has .days == j - i
 """
 from fractions import Fraction
@@ -246,6 +246,16 @@ class Ser(PvObject):
             out.append(_ite(ops.compare('>=', cnt, mp), cur, NAN))
         return Ser(out, self.p, self.index)
 
+    def fillna(self, val):
+        def f(x):
+            n = nan_of(x)
+            if n is None:
+                return x
+            if x is NAN:
+                return val
+            return ops.ite(n, val, Sym(x.t, x.k))
+        return Ser([f(x) for x in self.v], self.p, self.index)
+
     def filter(self, mask):
         if not isinstance(mask, Ser) or len(mask.v) != len(self.v):
             raise OutOfSubset('boolean mask of another shape')
@@ -290,6 +300,8 @@ class Ser(PvObject):
             return B('Series.' + name, lambda i, a, k: m())
         if name == 'std':
             return B('Series.std', lambda i, a, k: self.std(k.get('ddof', a[0] if a else 1)))
+        if name == 'fillna':
+            return B('Series.fillna', lambda i, a, k: self.fillna(a[0] if a else k.get('value')))
         if name == 'expanding':
             return B('Series.expanding', lambda i, a, k: _Expanding(self, k.get('min_periods', a[0] if a else 1)))
         if name == 'to_numpy':
@@ -395,6 +407,8 @@ class DF(PvObject):
                     return Ser([NAN] + [ops.arith('-', _div(s.v[j], s.v[j - 1]), 1) for j in range(1, len(s.v))], s.p, s.index)
                 return self.map_columns(f)
             return B('DataFrame.pct_change', pct_change)
+        if name == 'fillna':
+            return B('DataFrame.fillna', lambda i, a, k: self.map_columns(lambda s: s.fillna(a[0] if a else k.get('value'))))
         if name == 'cumprod':
             return B('DataFrame.cumprod', lambda i, a, k: self.map_columns(lambda s: s.cumprod()))
         if name == 'expanding':
